@@ -726,6 +726,28 @@ impl Judge {
                         }
                         let mut w = OneByte(vec![]);
                         let wr = engine::guarded(|| t.render_to("t", &self.ctx, &mut w));
+                        // the same template reached through an include, from a page that has a block
+                        // of the name the pairs family uses: its text is still its own (seeded change
+                        // C08-10 resolved the blocks of an included template in the including one)
+                        if let Out::Ok(text) = &out {
+                            let ds = &DSETS[d];
+                            let page = format!(
+                                "{bs} block b {be}PAGE{bs} endblock {be}|{bs} include \"t\" {be}",
+                                bs = ds.bs,
+                                be = ds.be
+                            );
+                            let included = match engine::add_templates(&mut t, &[("page".to_string(), page)]) {
+                                Out::Ok(_) => engine::render(&t, "page", &self.ctx),
+                                other => other,
+                            };
+                            let want = format!("PAGE|{text}");
+                            if !matches!(&included, Out::Ok(s) if *s == want) {
+                                return Out::Err(
+                                    "IncludeMismatch".into(),
+                                    format!("render gives {}, a page `[block b]PAGE[endblock]|[include t]` gives {} instead of {want:?}", out.show(), included.show()),
+                                );
+                            }
+                        }
                         match (&out, wr) {
                             (Out::Ok(text), Ok(Ok(()))) if w.0 == text.as_bytes() => out,
                             (Out::Err(..), Ok(Err(_))) => out,
